@@ -44,4 +44,14 @@ def textNotifFailing (p q : State) (evs : List Ev) : List String :=
             e.actors.contains x).length == subscriptions p m k) then []
    else ["text-effective-change-not-delivered-once-per-subscription"])
 
+/-- the STRICT reading ("monitors are told of effective changes only, the payload is the delta"): an event all of
+whose actors did not change sides, or — for an effective one — an actor in the payload that did not change sides.
+NOT wired into the driver: the implementation notifies ineffective calls by design (verbatim payload); see
+`C11.ineffective_leave_is_notified` and notes/C11.md (wave 2) for the decision. -/
+def textNotifStrictFailing (p q : State) (evs : List Ev) : List String :=
+  (if evs.all (fun e => e.actors.any fun x => (changedIn p q (e.scope, e.group)).contains x) then []
+   else ["text-ineffective-change-notified"]) ++
+  (if evs.all (fun e => e.actors.all fun x => (changedIn p q (e.scope, e.group)).contains x) then []
+   else ["text-payload-names-unchanged-actor"])
+
 end Pg
